@@ -208,6 +208,17 @@ example : (recover flEx 3 (mkChain 0 [pEx, pEx2]) [0, 15, 15, 18, 21, 20]).map
 /-- a state vector of the wrong length is refused, not padded -/
 example : chainResidual flEx 3 (mkChain 0 [pEx]) [0, 15] = none := by decide +kernel
 
+/-- `mass_split` and `profile_linear` applied: their hypotheses hold for `pEx2` -/
+example : (List.zipWith (fun (wT : ℚ × ℚ) u => wT.1 * flEx.rho ((wT.2 + 15) / 2) * u * 3 * (pEx2.ri * pEx2.ri))
+    (pEx2.weights.zip [18, 21]) (recoverPanel flEx 3 pEx2 15 [18, 21]).flow).sum = pEx2.mdot :=
+  mass_split flEx 3 pEx2 15 [18, 21] rfl (by simp [pEx2]) (by simp [pEx2]) (by norm_num)
+    (by norm_num [pEx2]) (by simp [flEx])
+example : ∃ prof, (recoverPanel flEx 3 pEx2 15 [18, 21]).temps[1]? = some prof ∧ prof.length = 2 ∧
+    prof[0]? = some 15 ∧ prof[1]? = some 21 := by
+  obtain ⟨prof, h1, h2, _, h3, h4⟩ :=
+    profile_linear flEx 3 pEx2 15 [18, 21] (by norm_num [pEx2]) (by decide) 1 21 rfl
+  exact ⟨prof, h1, h2, h3, h4⟩
+
 example : dofMap [1, 2, 1, 3, 1] = [[0], [1, 2], [3], [4, 5, 6], [7]] := by decide
 example : inletDof [pEx, pEx2] 1 = 2 ∧ inletDof [pEx, pEx2] 0 = 0 := by decide
 
